@@ -245,6 +245,21 @@ class Evaluator:
                             r = uf("sqrt")(args[0])
                             return 1 / r if neg else r
                     return uf("pow", 2)(args[0], args[1])
+                if f.id == "fmod" and len(args) == 2 and not self.numeric:
+                    # the idiom fmod(fmod(a, b) + b, b) IS the floored modulo a - b*floor(a/b) for b != 0 (D-fmod, a standard identity):
+                    # recognised syntactically so that it meets sympy's Mod in the same form
+                    a0 = node.args[0]
+                    if isinstance(a0, ast.BinOp) and isinstance(a0.op, ast.Add) and isinstance(a0.left, ast.Call) and isinstance(a0.left.func, ast.Name) and a0.left.func.id == "fmod" and len(a0.left.args) == 2 and ast.dump(a0.left.args[1]) == ast.dump(a0.right) == ast.dump(node.args[1]):
+                        a, b = self.ev(a0.left.args[0]), args[1]
+                        return a - b * z3.ToReal(z3.ToInt(a / b))
+                if f.id == "fmod" and len(args) == 2:
+                    # C: fmod(a, b) = a - b * trunc(a / b)  (result has the sign of the DIVIDEND)
+                    q = args[0] / args[1]
+                    tr = z3.If(q >= 0, z3.ToReal(z3.ToInt(q)), -z3.ToReal(z3.ToInt(-q)))
+                    return args[0] - args[1] * tr
+                if f.id in ("floor", "ceil") and len(args) == 1:
+                    fl = z3.ToReal(z3.ToInt(args[0]))
+                    return fl if f.id == "floor" else -z3.ToReal(z3.ToInt(-args[0]))
                 if f.id == "fabs" and len(args) == 1:
                     return z3.If(args[0] >= 0, args[0], -args[0])  # |x| by definition (the expected side defines Abs the same way)
                 if f.id in FUNCS1 and len(args) == 1:
